@@ -2,18 +2,15 @@
 import json, os
 VERIF = os.path.dirname(os.path.dirname(os.path.abspath(__file__)))
 
-# id -> (technique, level text, level note, design ref)   for every claimed property
-CLAIMED = {
- 'C08': ('Coq proof (lia over Z offsets, all shapes/sizes/layouts) + in-Coq model execution vs implementation, exhaustive over small shapes',
-         'Theorems in coq/theories/C08/Props.v prove crop(pad x)=x, size, zeros-only, centre mapping, NumPy=PyTorch placement and layout lemmas for every h,w>=1 and size>=shape. The model is tied to /repo on every run by evaluating its executable definitions inside Coq (vm_compute) on the same shapes/sizes/layouts the implementation is run on (exhaustive up to 22x22 quick / 40x40 thorough, placement read exactly from arrays of distinct integers), plus direct oracles on the implementation that yield the replay.',
-         'Trusted: Coq kernel + vm_compute; the hand-written model of the index arithmetic and rank/layout dispatch (validated by the correspondence); numpy/torch slicing and np.pad observed, not modelled; dtype handling observed on real and complex inputs only.',
-         'DESIGN.md 4/C08'),
- 'C10': ('Coq proof over R (field/ring/nra on 3-vectors) + translation validation: odak functions traced symbolically from /repo and proved equal to the reference model on every run',
-         'coq/theories/C10/Props.v proves normal perpendicular/unit/non-zero, hit on ray at the reported distance and on the plane, scale invariance, exact barycentric flag, same-side equivalence, parallel = no solution, for all real triangles of non-zero area. Tie (every run): tracer/ executes the current source of get_triangle_normal, intersect_w_surface(_batch), is_it_on_triangle(_batch) (both APIs) symbolically, emits Coq definitions, and coq/tie/C10_Tie*.v proves them equal to the model for all reals and restates the property clauses on the traced definitions (traced_normal_sound, traced_torch_hit_sound, traced_flag_exact, batch = map of singles). The translator is validated numerically against the real functions each run; direct oracles on the implementation supply replayable failing inputs.',
-         'Trusted: Coq kernel; Reals axioms (sig_forall_dec, sig_not_dec, functional_extensionality_dep); the tracer (shim + recipe), validated by the self-check; float rounding and torch/numpy kernels modelled as exact real arithmetic; masking/splitting glue of intersect_w_triangle(_batch) and the NumPy python-level is_it_on_triangle covered by oracles only. Open finding: NumPy returns |distance| (tie states n_dist = |t|).',
-         'DESIGN.md 4/C10'),
-}
+# every claimed property has harness/props/cXX.meta.json: {technique, level_text, level_note, design_ref}
+CLAIMED = {}
+for f in sorted(os.listdir(os.path.join(VERIF, 'harness', 'props'))):
+    if f.endswith('.meta.json'):
+        d = json.load(open(os.path.join(VERIF, 'harness', 'props', f)))
+        CLAIMED[f[:3].upper()] = (d['technique'], d['level_text'], d['level_note'], d.get('design_ref', 'DESIGN.md 4'))
 PENDING = {}
+if os.path.exists(os.path.join(VERIF, 'harness', 'not_claimed.json')):
+    PENDING = json.load(open(os.path.join(VERIF, 'harness', 'not_claimed.json')))
 
 
 def main():
@@ -38,7 +35,7 @@ def main():
             na.append({'property_id': i, 'reason': PENDING.get(i, 'check not built yet in this session (work in progress; see DESIGN.md section 4 for the plan)')})
     m = {
         'version': 1,
-        'setup_cmd': 'cd /verif/coq && coq_makefile -f _CoqProject -o Makefile && timeout 3000 make -j16',
+        'setup_cmd': 'cd /verif/coq && ./mkproject.sh && timeout 3000 make -j16',
         'hooks': {'guard': 'ODAK_VERIF', 'enable': 'no hooks are needed: every observation point is public API; ./check sets ODAK_VERIF=1 for uniformity only',
                   'baseline_off_cmd': 'cd /repo && /venv/bin/python -m pytest -ra -q -p no:cacheprovider --timeout=900 --continue-on-collection-errors',
                   'source_commits': [], 'add_only': True},
